@@ -1040,4 +1040,51 @@ theorem cinv_run {eps : List EP} {uss : List (List Name)} {lb0 : List (Key × Na
   | nil => simpa [crun] using h
   | cons t rest ih => simpa [crun] using ih (cinv_step h t)
 
+
+/-! ## the load-balancer map under a concurrent Sync (finding C03-lb-reset-race) -/
+
+/-- invariant of the race model when nothing overwrites the mutex -/
+def RaceOK (s : RaceSys) : Prop := s.fatal = false ∧ s.muLocked = s.holder.isSome
+
+theorem raceStep_ok (inPlace : Bool) (s : RaceSys) (a : RaceAct) (h : RaceOK s) (ha : inPlace = true ∨ a ≠ .syncReset) :
+    RaceOK (raceStep inPlace s a) := by
+  obtain ⟨h1, h2⟩ := h
+  cases a with
+  | popLock t =>
+    simp only [raceStep]
+    split
+    · exact ⟨h1, h2⟩
+    · exact ⟨h1, by simp⟩
+  | popUnlock t =>
+    simp only [raceStep]
+    split
+    · exact ⟨h1, h2⟩
+    · rename_i hc
+      simp only [Bool.or_eq_true, not_or, bne_iff_ne, ne_eq, Decidable.not_not] at hc
+      have : s.muLocked = true := by rw [h2, hc.2]; rfl
+      simp [this, RaceOK, h1]
+  | syncReset =>
+    rcases ha with ha | ha
+    · subst ha; simpa [raceStep] using ⟨h1, h2⟩
+    · exact absurd rfl ha
+
+theorem raceRun_ok (inPlace : Bool) (acts : List RaceAct) (ha : inPlace = true ∨ RaceAct.syncReset ∉ acts) :
+    RaceOK (raceRun inPlace acts) := by
+  unfold raceRun
+  suffices ∀ s, RaceOK s → RaceOK (acts.foldl (raceStep inPlace) s) from this _ ⟨rfl, rfl⟩
+  induction acts with
+  | nil => intro s h; simpa using h
+  | cons a rest ih =>
+    intro s h
+    simp only [List.foldl_cons]
+    have ha' : inPlace = true ∨ RaceAct.syncReset ∉ rest := by
+      rcases ha with ha | ha
+      · exact Or.inl ha
+      · exact Or.inr (fun x => ha (by simp [x]))
+    apply ih ha'
+    apply raceStep_ok inPlace s a h
+    rcases ha with ha | ha
+    · exact Or.inl ha
+    · exact Or.inr (fun x => ha (by simp [x]))
+
 end KG.Lemmas.Endpoints
